@@ -499,7 +499,8 @@ class MetadorGroup(MetadorNode):
         self.__wrapped__.copy(raw_source, dst_path, **copy_kwargs)  # RAW
         dst_node = self[dst_path]  # exists now
 
-        if src_is_dataset and not without_meta:
+        # (metadata group only exists if the dataset has any metadata attached)
+        if src_is_dataset and not without_meta and len(src_node.meta):
             # because metadata lives in parallel group, need to copy separately:
             src_meta: str = src_node.meta._base_dir
             dst_meta: str = dst_node.meta._base_dir  # node will not exist yet
